@@ -133,6 +133,13 @@ struct CachingAllocator {
 static CachingAllocator g_ca;
 
 // the executing vCPU must not be a submitter's one; at most vcpu_num distinct vCPUs execute the tasks of one pool
+// vCPUs that join the pool from outside (join_current_vcpu_into_workpool): OS threads of the harness with their own
+// photon environment; they serve the pool until its destructor sends them away, and the destructor has to wait for them
+static int g_nj = 0;
+static std::vector<std::thread> g_joined;
+static std::atomic<int> g_joined_in{0}, g_joined_out{0};
+static vh::NamedCounter c_joined("joined_vcpus_served"), c_on_joined("tasks_on_joined_vcpus");
+static std::atomic<void*> g_joined_vcpu[4];
 static VSlot* note_vcpu(Rec* r, void* v) {
     for (int i = 0; i < g_np; ++i)
         if (v == g_sub_vcpus[i].load(vh::MO))
@@ -143,9 +150,9 @@ static VSlot* note_vcpu(Rec* r, void* v) {
             void* exp = nullptr;
             if (g_vslot[i].vcpu.compare_exchange_strong(exp, v, vh::MO)) {
                 int n = g_nvslot.fetch_add(1, vh::MO) + 1;
-                if (n > g_nv)
+                if (n > g_nv + g_nj)
                     vh::violation("vcpu/more-executing-vcpus-than-pool-size", "tasks of one pool ran on more distinct vCPUs than the pool has",
-                                  vh::JObj().kv("distinct", n).kv("vcpu_num", g_nv).str());
+                                  vh::JObj().kv("distinct", n).kv("vcpu_num", g_nv).kv("joined_vcpus", g_nj).str());
                 return &g_vslot[i];
             }
             cur = exp;
@@ -166,6 +173,7 @@ static void run_body(Rec* r, const uint64_t* functor_magic) {
         vh::violation("vcpu/body-outside-photon", "a task body runs on an OS thread without a photon environment", rec_json(r));
     void* v = get_vcpu();
     r->vcpu.store(v, vh::MO);
+    for (int j = 0; j < g_nj; ++j) if (g_joined_vcpu[j].load(vh::MO) == v) { c_on_joined.add(); break; }
     VSlot* slot = note_vcpu(r, v);
     if (slot) {
         if (slot->inflight.fetch_add(1, vh::MO) > 0) c_overlap.add();      // the dispatcher looped while an earlier task slept/yielded
@@ -337,6 +345,22 @@ static void create_pool(Sub& s, int round) {
     g_dtor_entered.store(0, vh::MO);
     g_pool = new WorkPool(g_nv, g_ev, INIT_IO_NONE, g_mode, g_ring);
     if (g_pool->get_vcpu_num() != g_nv) vh::machinery_failure("pool has not the requested number of vCPUs");
+    g_joined_in.store(0, vh::MO); g_joined_out.store(0, vh::MO);
+    for (int j = 0; j < g_nj; ++j) {
+        auto pool = g_pool;
+        g_joined.emplace_back([pool, j] {
+            if (photon::init(g_ev, INIT_IO_NONE) != 0) vh::machinery_failure("photon::init failed in a joining vCPU");
+            g_joined_vcpu[j].store(get_vcpu(), vh::MO);
+            // runs at the first suspension of this vCPU's main thread, i.e. when it is inside the pool's main loop
+            // (registered): the pool must not be destroyed before that
+            thread_create([](void*) -> void* { g_joined_in.fetch_add(1, std::memory_order_release); return nullptr; }, nullptr, 64 * 1024);
+            vh::progress();
+            pool->join_current_vcpu_into_workpool();        // returns when the pool is being destroyed
+            g_joined_out.fetch_add(1, vh::MO);
+            c_joined.add();
+            photon::fini();
+        });
+    }
     vh::progress();
     s.state.store(S_IDLE, vh::MO);
     g_round_open.store(round + 1, std::memory_order_release);
@@ -370,17 +394,21 @@ static void destroy_pool(Sub& s, vh::Rng& rng, int round) {
     for (uint64_t i = 0; i < fb; ++i) submit(s, new_rec(s, rng, T_ASYNC, 1));
     c_final_burst.add(fb);
     if (rng.chance(1, 4)) pause_us(s.is_photon, rng.range(20, 400));
+    wait_until(s.is_photon, [&] { return g_joined_in.load(std::memory_order_acquire) >= g_nj; }, 200);
     s.state.store(S_DESTROY, vh::MO);
     g_dtor_entered.store(1, vh::MO);
     delete g_pool;
     g_pool = nullptr;
     s.state.store(S_IDLE, vh::MO);
+    // (tasks are checked below, before the joined OS threads are joined: the destructor alone has to have waited)
     c_pools.add();
     (s.is_photon ? c_dtor_photon : c_dtor_os).add();
     for (int i = 0; i <= g_nsub; ++i) {
         auto& o = g_subs[i];
         for (; o.checked < o.recs.size(); ++o.checked) check_rec(o.recs[o.checked], "right after the destructor");
     }
+    for (auto& t : g_joined) t.join();
+    g_joined.clear();
     vh::progress();
     g_round_closed.store(round + 1, std::memory_order_release);
 }
@@ -449,6 +477,7 @@ int main(int argc, char** argv) {
     vh::init(argc, argv);
     vh::Rng r(vh::args().xseed());
     g_nv = vh::args().geti("vcpus", r.pick({1, 2, 4}));
+    { vh::Rng rj(vh::mix(vh::args().xseed(), 4242)); g_nj = vh::args().geti("joined", rj.pick({0, 0, 1, 1, 2})); }
     int m = r.below(6);
     g_mode = vh::args().geti("mode", m < 2 ? -1 : m < 4 ? 0 : r.pick({1, 2, 3, 8, 32}));
     g_ring = vh::args().geti("ring", r.pick({1, 2, 4, 64}));
@@ -487,7 +516,7 @@ int main(int argc, char** argv) {
     }
     g_tasks_per_sub = std::max<uint64_t>(4, total / g_rounds / g_nsub);
 
-    vh::config("vcpu_num", g_nv); vh::config("mode", g_mode); vh::config("ring_size", g_ring); vh::config("event_engine", (int64_t)g_ev);
+    vh::config("joined_vcpus", g_nj); vh::config("vcpu_num", g_nv); vh::config("mode", g_mode); vh::config("ring_size", g_ring); vh::config("event_engine", (int64_t)g_ev);
     vh::config("photon_submitters", std::to_string(g_np) + "x" + std::to_string(g_tpv)); vh::config("os_submitters", g_no);
     vh::config("stacks", g_stack_mode == 0 ? "default" : g_stack_mode == 1 ? "harness-cache" : "photon-pooled");
     vh::config("rounds", g_rounds); vh::config("tasks_per_submitter_per_round", (int64_t)g_tasks_per_sub);
